@@ -198,6 +198,62 @@ def overlap_or_touch(e):
     return found
 
 
+def probe(obj):
+    """What a class object shows of itself and does as an operand (class objects are values: section C20 / C07 'the result never
+    depends on ... history')."""
+    out = [str(obj)]
+    for f in (lambda: obj | obj, lambda: ~obj, lambda: ~(~obj)):
+        try:
+            out.append(str(f()))
+        except Exception as ex:  # noqa: BLE001
+            if type(ex).__name__ == 'CaseTimeout':
+                raise
+            out.append(type(ex).__name__)
+    if hasattr(obj, '_get_verbose_pattern'):
+        out.append(obj._get_verbose_pattern())
+    return out
+
+
+def operands_unchanged(e, ctx):
+    """Evaluate the expression over *shared* leaf objects (equal leaves are one object, as when a user keeps a class in a
+    variable); afterwards every leaf object must still show and do what a freshly built one does."""
+    import json
+    cache = {}
+
+    def b(x):
+        k = x[0]
+        if k == 'inv':
+            return ~b(x[1])
+        if k == 'or':
+            return b(x[1]) | b(x[2])
+        if k == 'sub':
+            return b(x[1]) - b(x[2])
+        if k in ('c', 's', 'bad'):
+            return cs.build(x)
+        key = json.dumps(x)
+        if key not in cache:
+            cache[key] = cs.build(x)
+        return cache[key]
+    try:
+        b(e)
+    except Exception as ex:  # noqa: BLE001 - the outcome itself is judged by evaluate(); here only the operands matter
+        if type(ex).__name__ == 'CaseTimeout':
+            raise
+    for key, obj in cache.items():
+        leaf = json.loads(key)
+        try:
+            fresh = cs.build(leaf)
+        except Exception:  # noqa: BLE001
+            continue
+        if isinstance(obj, str) or not hasattr(obj, 'get_matches'):
+            continue
+        got, want = probe(obj), probe(fresh)
+        if got != want:
+            violation('operand_changed', e, f'after evaluating the expression over shared leaf objects, the leaf {cs.render(leaf)} shows / does '
+                      f'{got!r}; a freshly built one {want!r} (str, x|x, ~x, ~~x, verbose)', ctx)
+    ctx.count('operand_immutability_checked')
+
+
 def check_case(case, ctx):
     e = case['expr']
     r, val = evaluate(e, ctx)
@@ -212,6 +268,8 @@ def check_case(case, ctx):
             r3, _ = evaluate(['inv', ['inv', e]], ctx)
             if r3 != 'ok':
                 violation('double_negation', e, f'~~A gives {r3}', ctx)
+    if r in ('ok', 'expected_exception'):
+        operands_unchanged(e, ctx)
     nops = cs.n_ops(e)
     nt = nops >= 2 and r in ('ok', 'expected_exception') and overlap_or_touch(e)
     if nops >= 2:
